@@ -896,3 +896,55 @@ func noWritesUnderReadLock(c *core.Ctx) {
 	}
 	c.Stat("rlock_users", n)
 }
+
+// noSharedUnsafeStdlibObjects (C09-R10): no package-level variable holds a
+// standard-library object that is documented as not safe for concurrent use
+// (*math/rand.Rand from rand.New, bytes.Buffer, strings.Builder, bufio and json
+// stream objects).  Every VM in the process would use it at the same time.
+func noSharedUnsafeStdlibObjects(c *core.Ctx) {
+	p := c.P
+	unsafe := map[string]bool{
+		"math/rand.Rand": true, "math/rand/v2.Rand": true, "bytes.Buffer": true, "strings.Builder": true,
+		"bufio.Reader": true, "bufio.Writer": true, "bufio.Scanner": true, "bufio.ReadWriter": true,
+		"encoding/json.Encoder": true, "encoding/json.Decoder": true, "text/tabwriter.Writer": true,
+		"compress/gzip.Writer": true, "compress/gzip.Reader": true,
+	}
+	n, bad := 0, 0
+	for _, pk := range p.Pkgs {
+		sp := p.SSAPkg(pk)
+		if sp == nil {
+			continue
+		}
+		var names []string
+		for name, m := range sp.Members {
+			if _, ok := m.(*ssa.Global); ok {
+				names = append(names, name)
+			}
+		}
+		sortStrings(names)
+		for _, name := range names {
+			g := sp.Members[name].(*ssa.Global)
+			if !g.Pos().IsValid() || strings.HasSuffix(p.Fset.Position(g.Pos()).Filename, "_test.go") {
+				continue
+			}
+			n++
+			t := g.Type().(*types.Pointer).Elem()
+			if pt, ok := t.Underlying().(*types.Pointer); ok {
+				t = pt.Elem()
+			}
+			nt := core.NamedOf(t)
+			if nt == nil || nt.Obj().Pkg() == nil {
+				continue
+			}
+			if unsafe[nt.Obj().Pkg().Path()+"."+nt.Obj().Name()] {
+				bad++
+				c.Fail(core.RelPkg(pk.Types)+"."+name+"|shared-unsafe-object", p.Pos(g.Pos()),
+					"package-level variable "+name+" holds a "+nt.Obj().Pkg().Path()+"."+nt.Obj().Name()+", which is not safe for concurrent use; every VM in the process shares it")
+			}
+		}
+	}
+	if bad == 0 {
+		c.Pass("no-shared-unsafe-stdlib-object", "repo", "no package-level variable holds a standard-library object that is unsafe for concurrent use")
+	}
+	c.Stat("package_variables", n)
+}
